@@ -229,6 +229,7 @@ func (o unifyOut) Sx() Sx {
 }
 
 func c17Pair(r *Run, x, y *T, init map[string]*T) {
+	r.Mark(fmt.Sprintf("types.Equals / types.Unify on %s ~ %s", x, y))
 	gx, gy := x.Go(), y.Go()
 	// --- equality: correspondence + laws
 	eq := types.Equals(gx, gy)
